@@ -7,6 +7,14 @@ import traceback
 sys.path.insert(0, os.path.dirname(os.path.abspath(__file__)))
 import common
 
+# The editable install pins sys.modules['cherab'].__path__ to /repo/cherab; a scratch copy of the
+# repository (VERIF_REPO=/some/copy, used only to try the checks on seeded changes) must be
+# selected before anything under cherab is imported.
+_m = sys.modules.get("cherab")
+if _m is None:
+    import cherab as _m
+_m.__path__ = [os.path.join(common.REPO, "cherab")]
+
 
 def main():
     args = sys.argv[1:]
